@@ -229,24 +229,37 @@ def run_cases_dir(cdir, timeout=1800, jobs=16):
     where failures = list of (index, [tags]) and errors = list of text."""
     shards = sorted(glob.glob(os.path.join(cdir, "Cases_*.v")))
     procs, fails, errs = [], [], []
-    def harvest(p, f):
+    killed = []
+    def harvest(p, f, last=False):
         out, _ = p.communicate(timeout=timeout)
+        if p.returncode < 0 and not last:
+            # killed by a signal (the kernel's OOM killer on a loaded machine), not rejected by Coq: once more, alone
+            killed.append(f)
+            return
         if p.returncode != 0:
             errs.append("%s: coqc failed\n%s" % (f, out[-3000:]))
             return
         fails.extend(parse_report(out))
+    def start(f):
+        return subprocess.Popen(["coqc", "-Q", COQ, "Apko", "-w", "-notation-overridden", f], cwd=cdir,
+                                stdout=subprocess.PIPE, stderr=subprocess.STDOUT, text=True, errors="replace",
+                                preexec_fn=_limit_mem)
     pending = list(shards)
     running = []
     while pending or running:
         while pending and len(running) < jobs:
             f = pending.pop(0)
-            p = subprocess.Popen(["coqc", "-Q", COQ, "Apko", "-w", "-notation-overridden", f], cwd=cdir,
-                                 stdout=subprocess.PIPE, stderr=subprocess.STDOUT, text=True, errors="replace",
-                                 preexec_fn=_limit_mem)
-            running.append((p, f))
+            running.append((start(f), f))
         p, f = running.pop(0)
         try:
             harvest(p, f)
+        except subprocess.TimeoutExpired:
+            p.kill()
+            errs.append("%s: coqc timeout" % f)
+    for f in killed:
+        p = start(f)
+        try:
+            harvest(p, f, last=True)
         except subprocess.TimeoutExpired:
             p.kill()
             errs.append("%s: coqc timeout" % f)
